@@ -8,7 +8,7 @@ import "golang.org/x/tools/go/ssa"
 
 func init() {
 	checks["C04"] = checkC04
-	explanations["C04"] = "Structural necessary condition (E1 must-pass over the success returns of the exported verifiers): VerifyHeader, VerifyManufacturerKey, VerifyCertChainHash, VerifyDeviceCertChain and VerifyEntries return nil only on paths that passed their comparison (hmac.Equal over recomputed HMAC / key hash / chain hash, x509 Verify, and per entry: Sign1.Verify true && err==nil under the previous owner key, header-hash algorithm equality, header-info hash, previous-entry hash), the entry validator recurses on entries[1:] with the verified entry's key, and ExtendVoucher succeeds only after key-type, size and current-owner-key equality and signs with that signer. Also (E3/G1) no explicit panic reachable from these entry points is control-dependent on voucher content. Not decided: that untampered vouchers do verify; bit-level tamper coverage; that hashes cover the right bytes."
+	explanations["C04"] = "Structural necessary condition (E1 must-pass over the success returns of the exported verifiers): VerifyHeader, VerifyManufacturerKey, VerifyCertChainHash, VerifyDeviceCertChain and VerifyEntries return nil only on paths that passed their comparison (hmac.Equal over recomputed HMAC / key hash / chain hash, x509 Verify, and per entry: Sign1.Verify true && err==nil under the previous owner key, header-hash algorithm equality, header-info hash, previous-entry hash), the entry validator recurses on entries[1:] with the verified entry's key, and ExtendVoucher succeeds only after key-type, size and current-owner-key equality and signs with that signer. Also (E3/G1) no explicit panic reachable from these entry points is control-dependent on voucher content. The chain validator reports success without recursing only when no entry is left. Not decided: that untampered vouchers do verify; bit-level tamper coverage; that hashes cover the right bytes."
 }
 
 func checkC04(c *Ctx, p *Prog, r *Result) {
